@@ -270,3 +270,83 @@ func runBorrowedRowsRule(c *Ctx, rule string, min int) {
 	}
 	c.Min(rule, min)
 }
+
+// runRetainedRowRule — a single Row kept in a struct field from one call to
+// the next (the last row a dedupe saw) outlives the rows it was taken from:
+// the reader contract lets their owner reuse the bytes behind them on the next
+// call. Such a field is filled with cloned values, never with a shallow append
+// of a row that derives from a []Row parameter.
+func runRetainedRowRule(c *Ctx, rule string, min int) {
+	p := c.P
+	isRow := func(t types.Type) bool {
+		n := namedOf(t)
+		if n == nil || n.Obj().Name() != "Row" {
+			return false
+		}
+		_, ok := n.Underlying().(*types.Slice)
+		return ok
+	}
+	n := 0
+	for _, fn := range p.ModuleSSAFuncs() {
+		if fn.Origin() != nil || fn.Blocks == nil || fn.Parent() != nil || fnPkgPath(fn) != modPath {
+			continue
+		}
+		var pars []*ssa.Parameter
+		for pi, par := range fn.Params {
+			if fn.Signature.Recv() != nil && pi == 0 {
+				continue
+			}
+			if isRowSlice(par.Type()) {
+				pars = append(pars, par)
+			}
+		}
+		if len(pars) == 0 {
+			continue
+		}
+		fromRows := func(v ssa.Value) bool {
+			for _, par := range pars {
+				is := func(x ssa.Value) bool { return x == ssa.Value(par) }
+				if elementOf(v, is, map[ssa.Value]bool{}) {
+					return true
+				}
+			}
+			return false
+		}
+		k := 0
+		allInstrs(fn, false, func(_ *ssa.Function, ins ssa.Instruction) {
+			st, ok := ins.(*ssa.Store)
+			if !ok || !isRow(st.Val.Type()) {
+				return
+			}
+			fa, ok := st.Addr.(*ssa.FieldAddr)
+			if !ok {
+				return
+			}
+			fields, _, elem := fieldChain(fa)
+			if len(fields) == 0 || elem {
+				return
+			}
+			f := fields[len(fields)-1]
+			n++
+			k++
+			shallow := false
+			for _, o := range Origins(st.Val, OriginOpts{}) {
+				if o.Kind != OrgCall {
+					continue
+				}
+				call, ok := o.Call.(*ssa.Call)
+				if !ok {
+					continue
+				}
+				if bi, isB := call.Call.Value.(*ssa.Builtin); isB && bi.Name() == "append" && len(call.Call.Args) == 2 && fromRows(call.Call.Args[1]) {
+					shallow = true
+				}
+			}
+			if fromRows(st.Val) {
+				shallow = true
+			}
+			c.Check(rule, FuncKey(fn)+" keeps a copy of its own in "+p.FieldName(f)+"#"+itoa(k), st.Pos(), !shallow, FuncKey(fn)+" keeps in "+p.FieldName(f)+" a row (or a shallow copy of a row) of its []Row parameter: its byte array values point into memory the owner of those rows may reuse before the field is read again")
+		})
+	}
+	c.Min(rule, min)
+}
